@@ -1,1 +1,567 @@
-(* C05 stub: to be written *)
+(* C05 — proofs.  Part A: analytic facts about the GENERATED b-matrix / attenuation formulas (Gen/Diffusion.v).
+   Part B: D._apply on the array model as a function of the phase-state number; one [RF, shift, D] block is a linear
+   map with entries (RF entry) * (attenuation of the target state); the pathway sum for any number of blocks,
+   generic in the scalars and in the attenuation functions.  Part C: K = C with the generated exp(-b:D). *)
+From Coq Require Import Reals Lra Lia ZArith QArith Qreals List Bool Arith Ring.
+From Coquelicot Require Import Coquelicot.
+From EPG Require Import Scalar State Ops ListLemmas Views WfProof SynthStep CInst.
+From EPG.Gen Require Import Diffusion.
+From EPG.Model Require Import Diffusion.
+Import ListNotations.
+
+Section Analytic.
+Local Open Scope R_scope.
+
+(* unit factors exactly as the code has them: tau * 1e-3 (ms -> s), k * 1e-3 (rad/m -> rad/mm) *)
+Definition ms_to_s : R := 1 / 1000.
+Definition radm_to_radmm : R := 1 / 1000.
+Definition unit_factor : R := ms_to_s * (radm_to_radmm * radm_to_radmm).
+
+(* linear ramp of one wavenumber component during the interval [0, tau] *)
+Definition kramp (tau k1 k2 t : R) : R := k1 + (k2 - k1) * (t / tau).
+
+Definition prim (tau a1 b1 a2 b2 t : R) : R :=
+  a1 * b1 * t + (a1 * (b2 - b1) + (a2 - a1) * b1) * (t * t / (2 * tau))
+  + (a2 - a1) * (b2 - b1) * (t * t * t / (3 * (tau * tau))).
+
+Lemma prim_derive tau a1 b1 a2 b2 t : tau <> 0 ->
+  is_derive (prim tau a1 b1 a2 b2) t (kramp tau a1 a2 t * kramp tau b1 b2 t).
+Proof.
+  intros Ht. unfold prim, kramp. auto_derive.
+  - repeat split; auto.
+  - unfold Rdiv. field. exact Ht.
+Qed.
+
+(* closed form of the integral of a product of two ramps (Stejskal-Tanner type term) *)
+Definition ramp_int (tau a1 b1 a2 b2 : R) : R :=
+  tau * (a1 * b1 + (1 / 2) * (a1 * (b2 - b1)) + (1 / 2) * ((a2 - a1) * b1) + (1 / 3) * ((a2 - a1) * (b2 - b1))).
+
+Lemma ramp_integral tau a1 b1 a2 b2 : tau <> 0 ->
+  is_RInt (fun t => kramp tau a1 a2 t * kramp tau b1 b2 t) 0 tau (ramp_int tau a1 b1 a2 b2).
+Proof.
+  intros Ht.
+  replace (ramp_int tau a1 b1 a2 b2) with (minus (prim tau a1 b1 a2 b2 tau) (prim tau a1 b1 a2 b2 0)).
+  - apply (is_RInt_derive (prim tau a1 b1 a2 b2) (fun t => kramp tau a1 a2 t * kramp tau b1 b2 t)).
+    + intros x _. exact (prim_derive tau a1 b1 a2 b2 x Ht).
+    + intros x _. apply (ex_derive_continuous (fun t => kramp tau a1 a2 t * kramp tau b1 b2 t)).
+      unfold kramp. auto_derive. repeat split; auto.
+  - unfold minus, plus, opp; simpl. unfold prim, ramp_int. unfold Rdiv. field. exact Ht.
+Qed.
+
+(* the generated entry = unit factor * closed form, as a polynomial identity (no side condition) *)
+Lemma bmat_closed_form tau k1i k1j k2i k2j :
+  bmat tau k1i k1j k2i k2j = unit_factor * ramp_int tau k1i k1j k2i k2j.
+Proof. unfold bmat, unit_factor, ms_to_s, radm_to_radmm, ramp_int. field. Qed.
+
+(* (1) in the caller's units: tau in ms, k in rad/m *)
+Theorem bmatrix_is_integral tau k1i k1j k2i k2j : tau <> 0 ->
+  is_RInt (fun t => kramp tau k1i k2i t * kramp tau k1j k2j t) 0 tau
+          (bmat tau k1i k1j k2i k2j / unit_factor).
+Proof.
+  intros Ht. rewrite bmat_closed_form.
+  replace (unit_factor * ramp_int tau k1i k1j k2i k2j / unit_factor) with (ramp_int tau k1i k1j k2i k2j).
+  - exact (ramp_integral tau k1i k1j k2i k2j Ht).
+  - unfold unit_factor, ms_to_s, radm_to_radmm. field.
+Qed.
+
+(* (1') in the b-matrix's own units: t in s over [0, tau*1e-3], k in rad/mm: no factor at all *)
+Theorem bmatrix_is_integral_si tau k1i k1j k2i k2j : tau <> 0 ->
+  is_RInt (fun t => kramp (tau * ms_to_s) (k1i * radm_to_radmm) (k2i * radm_to_radmm) t *
+                    kramp (tau * ms_to_s) (k1j * radm_to_radmm) (k2j * radm_to_radmm) t)
+          0 (tau * ms_to_s) (bmat tau k1i k1j k2i k2j).
+Proof.
+  intros Ht.
+  replace (bmat tau k1i k1j k2i k2j)
+    with (ramp_int (tau * ms_to_s) (k1i * radm_to_radmm) (k1j * radm_to_radmm) (k2i * radm_to_radmm) (k2j * radm_to_radmm)).
+  - apply ramp_integral. unfold ms_to_s. lra.
+  - unfold bmat, ramp_int, ms_to_s, radm_to_radmm. field.
+Qed.
+
+(* (2) constant wavenumber: k2 = None, or the allclose branch, or the ramp formula at k2 = k1 all coincide *)
+Theorem bmatrix_const tau k1i k1j :
+  bmat tau k1i k1j k1i k1j = bmat_const tau k1i k1j /\
+  bmat_const tau k1i k1j = unit_factor * (k1i * k1j * tau) /\
+  is_RInt (fun _ => k1i * k1j) 0 tau (bmat_const tau k1i k1j / unit_factor).
+Proof.
+  split; [|split].
+  - unfold bmat, bmat_const. field.
+  - unfold bmat_const, unit_factor, ms_to_s, radm_to_radmm. field.
+  - replace (bmat_const tau k1i k1j / unit_factor) with (scal (tau - 0) (k1i * k1j)).
+    + apply (is_RInt_const 0 tau (k1i * k1j)).
+    + unfold scal; simpl; unfold mult; simpl. unfold bmat_const, unit_factor, ms_to_s, radm_to_radmm. field.
+Qed.
+
+(* (3) evenness and symmetry *)
+Theorem bmatrix_even tau k1i k1j k2i k2j :
+  bmat tau (- k1i) (- k1j) (- k2i) (- k2j) = bmat tau k1i k1j k2i k2j /\
+  bmat_const tau (- k1i) (- k1j) = bmat_const tau k1i k1j.
+Proof. split; unfold bmat, bmat_const; field. Qed.
+
+Theorem bmatrix_symmetric tau k1i k1j k2i k2j :
+  bmat tau k1i k1j k2i k2j = bmat tau k1j k1i k2j k2i.
+Proof. unfold bmat; field. Qed.
+
+(* (4) scalar D behaves exactly as the isotropic tensor D*I *)
+Theorem iso_equals_tensor (D : R) :
+  (forall b00, att_iso1 b00 D = att_tensor1 b00 D) /\
+  (forall b00 b01 b10 b11, att_iso2 b00 b01 b10 b11 D = att_tensor2 b00 b01 b10 b11 D 0 0 D) /\
+  (forall b00 b01 b02 b10 b11 b12 b20 b21 b22,
+     att_iso3 b00 b01 b02 b10 b11 b12 b20 b21 b22 D =
+     att_tensor3 b00 b01 b02 b10 b11 b12 b20 b21 b22 D 0 0 0 D 0 0 0 D).
+Proof.
+  split; [|split]; intros; unfold att_iso1, att_tensor1, att_iso2, att_tensor2, att_iso3, att_tensor3; f_equal; ring.
+Qed.
+
+(* (5) the zero-wavenumber state is not attenuated in a gradient-free interval (any tau, any D) *)
+Theorem k0_unattenuated tau :
+  bmat_const tau 0 0 = 0 /\ bmat tau 0 0 0 0 = 0 /\
+  (forall D, att_iso1 (bmat_const tau 0 0) D = 1) /\
+  (forall D00, att_tensor1 (bmat_const tau 0 0) D00 = 1) /\
+  (forall D, att_iso3 (bmat_const tau 0 0) (bmat_const tau 0 0) (bmat_const tau 0 0) (bmat_const tau 0 0) (bmat_const tau 0 0)
+                      (bmat_const tau 0 0) (bmat_const tau 0 0) (bmat_const tau 0 0) (bmat_const tau 0 0) D = 1) /\
+  (forall D00 D01 D02 D10 D11 D12 D20 D21 D22,
+     att_tensor3 (bmat_const tau 0 0) (bmat_const tau 0 0) (bmat_const tau 0 0) (bmat_const tau 0 0) (bmat_const tau 0 0)
+                 (bmat_const tau 0 0) (bmat_const tau 0 0) (bmat_const tau 0 0) (bmat_const tau 0 0)
+                 D00 D01 D02 D10 D11 D12 D20 D21 D22 = 1).
+Proof.
+  assert (H0 : bmat_const tau 0 0 = 0) by (unfold bmat_const; field).
+  split; [exact H0|]. split; [unfold bmat; field|].
+  rewrite H0. unfold att_iso1, att_tensor1, att_iso3, att_tensor3.
+  repeat split; intros; rewrite <- exp_0; f_equal; ring.
+Qed.
+
+(* (6) attenuation never exceeds 1 for positive semi-definite D and tau >= 0 *)
+Lemma exp_neg_le_1 x : 0 <= x -> exp (- x) <= 1.
+Proof.
+  intros Hx. rewrite <- exp_0. destruct Hx as [Hx|<-].
+  - left. apply exp_increasing. lra.
+  - rewrite Ropp_0. right. reflexivity.
+Qed.
+
+Lemma bmat_diag_nonneg tau k1 k2 : 0 <= tau -> 0 <= bmat tau k1 k1 k2 k2.
+Proof.
+  intros Ht.
+  replace (bmat tau k1 k1 k2 k2) with
+    (tau * (/ 1000000000) * ((k1 + (k2 - k1) / 2) * (k1 + (k2 - k1) / 2) + (k2 - k1) * (k2 - k1) / 12))
+    by (unfold bmat; field).
+  apply Rmult_le_pos; [apply Rmult_le_pos; lra|].
+  apply Rplus_le_le_0_compat; [apply Rle_0_sqr|].
+  apply Rmult_le_pos; [apply Rle_0_sqr|lra].
+Qed.
+
+Theorem att_le_1_1d tau k1 k2 D : 0 <= tau -> 0 <= D ->
+  att_tensor1 (bmat tau k1 k1 k2 k2) D <= 1 /\ att_iso1 (bmat tau k1 k1 k2 k2) D <= 1 /\
+  att_tensor1 (bmat_const tau k1 k1) D <= 1.
+Proof.
+  intros Ht HD. pose proof (bmat_diag_nonneg tau k1 k2 Ht) as Hb.
+  unfold att_tensor1, att_iso1. split; [|split].
+  - apply exp_neg_le_1. now apply Rmult_le_pos.
+  - replace (- bmat tau k1 k1 k2 k2 * D) with (- (bmat tau k1 k1 k2 k2 * D)) by ring.
+    apply exp_neg_le_1. now apply Rmult_le_pos.
+  - apply exp_neg_le_1. apply Rmult_le_pos; auto.
+    destruct (bmatrix_const tau k1 k1) as [<- _]. now apply bmat_diag_nonneg.
+Qed.
+
+(* quadratic form of a 3x3 tensor *)
+Definition qf (D00 D01 D02 D10 D11 D12 D20 D21 D22 x y z : R) : R :=
+  x * (D00 * x + D01 * y + D02 * z) + y * (D10 * x + D11 * y + D12 * z) + z * (D20 * x + D21 * y + D22 * z).
+
+(* b : D for the full 3-D ramp is  tau_s * ( u^T D u + (dk^T D dk)/12 ),  u = mid-point wavenumber *)
+Lemma bD_sum_of_squares tau x1 y1 z1 x2 y2 z2 D00 D01 D02 D10 D11 D12 D20 D21 D22 :
+  bmat tau x1 x1 x2 x2 * D00 + bmat tau x1 y1 x2 y2 * D01 + bmat tau x1 z1 x2 z2 * D02 +
+  bmat tau y1 x1 y2 x2 * D10 + bmat tau y1 y1 y2 y2 * D11 + bmat tau y1 z1 y2 z2 * D12 +
+  bmat tau z1 x1 z2 x2 * D20 + bmat tau z1 y1 z2 y2 * D21 + bmat tau z1 z1 z2 z2 * D22 =
+  tau * (/ 1000000000) *
+   (qf D00 D01 D02 D10 D11 D12 D20 D21 D22 ((x1 + x2) / 2) ((y1 + y2) / 2) ((z1 + z2) / 2) +
+    qf D00 D01 D02 D10 D11 D12 D20 D21 D22 (x2 - x1) (y2 - y1) (z2 - z1) / 12).
+Proof. unfold bmat, qf. field. Qed.
+
+Theorem att_le_1_psd tau x1 y1 z1 x2 y2 z2 D00 D01 D02 D10 D11 D12 D20 D21 D22 :
+  0 <= tau ->
+  (forall x y z, 0 <= qf D00 D01 D02 D10 D11 D12 D20 D21 D22 x y z) ->
+  att_tensor3 (bmat tau x1 x1 x2 x2) (bmat tau x1 y1 x2 y2) (bmat tau x1 z1 x2 z2)
+              (bmat tau y1 x1 y2 x2) (bmat tau y1 y1 y2 y2) (bmat tau y1 z1 y2 z2)
+              (bmat tau z1 x1 z2 x2) (bmat tau z1 y1 z2 y2) (bmat tau z1 z1 z2 z2)
+              D00 D01 D02 D10 D11 D12 D20 D21 D22 <= 1.
+Proof.
+  intros Ht Hpsd. unfold att_tensor3. apply exp_neg_le_1.
+  rewrite bD_sum_of_squares.
+  apply Rmult_le_pos; [apply Rmult_le_pos; lra|].
+  apply Rplus_le_le_0_compat; [apply Hpsd|].
+  apply Rmult_le_pos; [apply Hpsd|lra].
+Qed.
+
+(* ---- rational twins: what the executed model computes is the generated real formula *)
+Lemma Q2R_lit1000 : Q2R (1 # 1000) = 1 / 1000.
+Proof. unfold Q2R; simpl. lra. Qed.
+Lemma Q2R_lit2 : Q2R (1 # 2) = 1 / 2.
+Proof. unfold Q2R; simpl. lra. Qed.
+Lemma Q2R_lit3 : Q2R (1 # 3) = 1 / 3.
+Proof. unfold Q2R; simpl. lra. Qed.
+
+Theorem bmatQ_correct (tau a b c d : Q) :
+  Q2R (bmatQ tau a b c d) = bmat (Q2R tau) (Q2R a) (Q2R b) (Q2R c) (Q2R d) /\
+  Q2R (bmat_constQ tau a b) = bmat_const (Q2R tau) (Q2R a) (Q2R b).
+Proof.
+  unfold bmatQ, bmat, bmat_constQ, bmat_const.
+  repeat (rewrite ?Q2R_plus, ?Q2R_mult, ?Q2R_minus).
+  rewrite ?Q2R_lit1000, ?Q2R_lit2, ?Q2R_lit3. split; reflexivity.
+Qed.
+End Analytic.
+
+Section Pathways.
+Variable S : ScalOps.
+Hypothesis L : ScalLaws S.
+Add Ring Kr : (k_ring S L).
+Notation triple := (triple S).
+Notation sm := (sm S).
+Notation get := (get S).
+Notation gete := (gete S).
+Notation block := (block S).
+Local Open Scope Z_scope.
+
+(* ---------- D._apply as a function of the phase-state number ---------- *)
+Lemma d_apply_shaped aT aL (s : sm) n : shaped S s n -> shaped S (d_apply aT aL s) n.
+Proof.
+  intros [H1 H2]. split; simpl; auto. unfold d_apply_list. now rewrite length_tab.
+Qed.
+
+Lemma gete_d_apply aT aL (s : sm) k : gete (d_apply aT aL s) k = gete s k.
+Proof. reflexivity. Qed.
+
+Lemma get_d_apply aT aL (s : sm) n k : shaped S s n ->
+  get (d_apply aT aL s) k =
+  mk3 (aT k * fp (get s k))%K (kconj (aT (- k)%Z * fp (get s (- k)%Z))%K) (aL k * fz (get s k))%K.
+Proof.
+  intros [H1 H2]. unfold get, d_apply, d_apply_idx. cbn [st].
+  rewrite (getZ_odd t0 _ n) by (unfold d_apply_list; now rewrite length_tab).
+  unfold d_apply_list. rewrite nthZ_tab, H1, half_odd.
+  rewrite !(getZ_odd t0 (st s) n _ H1).
+  destruct (Z.leb_spec 0 (k + Z.of_nat n)); destruct (Z.ltb_spec (k + Z.of_nat n) (Z.of_nat (2 * n + 1))); cbn [andb].
+  - rewrite <- !(nthZ_nat t0 (st s)). rewrite Z2Nat.id by lia.
+    replace (Z.of_nat (2 * n + 1 - 1 - Z.to_nat (k + Z.of_nat n))) with (- k + Z.of_nat n) by lia.
+    replace (k + Z.of_nat n - Z.of_nat n) with k by lia.
+    replace (- k + Z.of_nat n - Z.of_nat n) with (- k) by lia. reflexivity.
+  - rewrite (nthZ_out t0 (st s) (k + Z.of_nat n)) by lia. rewrite (nthZ_out t0 (st s) (- k + Z.of_nat n)) by lia.
+    apply (triple_ext S); simpl; try ring. replace (aT (- k)%Z * k0)%K with (@k0 S) by ring. symmetry; apply (conj_0 S L).
+  - rewrite (nthZ_out t0 (st s) (k + Z.of_nat n)) by lia. rewrite (nthZ_out t0 (st s) (- k + Z.of_nat n)) by lia.
+    apply (triple_ext S); simpl; try ring. replace (aT (- k)%Z * k0)%K with (@k0 S) by ring. symmetry; apply (conj_0 S L).
+  - lia.
+Qed.
+
+(* D keeps the state matrix well-formed when the longitudinal factor is conjugate-even
+   (true for exp(-bL:D): real, and bL is even in k) *)
+Lemma wf_d_apply aT aL (s : sm) : (forall k, aL (- k) = kconj (aL k)) -> wf S s -> wf S (d_apply aT aL s).
+Proof.
+  intros HaL W. destruct (wf_shape S s W) as [n Hs].
+  constructor.
+  - exists n. now apply d_apply_shaped.
+  - intros k. rewrite !(get_d_apply aT aL s n _ Hs). simpl. reflexivity.
+  - intros k. rewrite !(get_d_apply aT aL s n _ Hs). simpl.
+    rewrite (conj_mul S L), (wf_fz S s W k), HaL. reflexivity.
+  - intros k Hk. rewrite gete_d_apply. now apply (wf_eq_off S s W).
+  - rewrite gete_d_apply. apply (wf_eq_c S s W).
+  - rewrite gete_d_apply. apply (wf_eq_r S s W).
+Qed.
+
+(* ---------- components, matrix entries ---------- *)
+Inductive comp : Type := Cp | Cm | Cz.
+Definition cget (c : comp) (x : triple) : S := match c with Cp => fp x | Cm => fm x | Cz => fz x end.
+Definition mrow (m : mat3 S) (c : comp) : triple := match c with Cp => row0 m | Cm => row1 m | Cz => row2 m end.
+(* RF matrix entry: amplitude transferred from component c' to component c *)
+Definition ment (m : mat3 S) (c c' : comp) : S := cget c' (mrow m c).
+(* wavenumber gained by component c during a shift by d *)
+Definition delta (c : comp) (d : Z) : Z := match c with Cp => d | Cm => - d | Cz => 0 end.
+(* attenuation met by component c arriving at wavenumber k in block B
+   (F-(k) is the conjugate mirror of F+(-k): it carries conj (aT (-k))) *)
+Definition att (B : block) (c : comp) (k : Z) : S :=
+  match c with Cp => b_aT B k | Cm => kconj (b_aT B (- k)) | Cz => b_aL B k end.
+Definition sumc (f : comp -> S) : S := (f Cp + f Cm + f Cz)%K.
+
+Definition block_ok (B : block) : Prop :=
+  wf_mat S (b_rf B) /\ (forall k, b_aL B (- k) = kconj (b_aL B k)).
+
+Lemma wf_apply_block B s : block_ok B -> wf S s -> wf S (apply_block B s).
+Proof.
+  intros [Hm Ha] W. unfold apply_block. apply wf_d_apply; auto.
+  apply (wf_step S L (OShift (b_d B) None)); [exact I|].
+  apply (wf_step S L (OMatrix (b_rf B) None)); [split; [exact Hm|exact I]|exact W].
+Qed.
+
+(* one block = linear map whose entries are (RF entry) * (attenuation of the target state) *)
+Theorem block_step B s c k : block_ok B -> wf S s ->
+  cget c (get (apply_block B s) k) =
+  (att B c k * sumc (fun c' => ment (b_rf B) c c' * cget c' (get s (k - delta c (b_d B)))))%K.
+Proof.
+  intros [Hm Ha] W. destruct (wf_shape S s W) as [n Hs].
+  set (s1 := apply (OMatrix (b_rf B) None) s).
+  assert (W1 : wf S s1) by (apply (wf_step S L (OMatrix (b_rf B) None)); [split; [exact Hm|exact I]|exact W]).
+  assert (Hs1 : shaped S s1 n) by (apply (matrix_shaped S); auto).
+  set (s2 := apply (OShift (b_d B) None) s1).
+  assert (Hs2 : shaped S s2 (n + Z.abs_nat (b_d B))) by (apply (shift_shaped S (b_d B) None s1 n Hs1)).
+  unfold apply_block. fold s1. fold s2.
+  rewrite (get_d_apply _ _ s2 _ k Hs2).
+  assert (G2 : forall j, get s2 j = mk3 (fp (get s1 (j - b_d B))) (fm (get s1 (j + b_d B))) (fz (get s1 j))).
+  { intros j. apply (get_shift_notrunc S (b_d B) None s1 n j Hs1). reflexivity. }
+  assert (G1 : forall j, get s1 j = mv (b_rf B) (get s j)).
+  { intros j. unfold s1. change (apply (OMatrix (b_rf B) None) s) with (apply_matrix (b_rf B) None s).
+    rewrite (get_matrix S L (b_rf B) None s n j Hs). unfold opt_mv.
+    apply (triple_ext S); simpl; ring. }
+  rewrite !G2. simpl.
+  destruct c; simpl; unfold sumc, ment, mrow, cget, att.
+  - rewrite G1. simpl. unfold dot. ring.
+  - rewrite (conj_mul S L). f_equal.
+    replace (- k - b_d B) with (- (k + b_d B)) by lia.
+    rewrite <- (wf_fm S s1 W1 (k + b_d B)). rewrite G1. simpl. unfold dot.
+    replace (k - - b_d B) with (k + b_d B) by lia. ring.
+  - rewrite G1. simpl. unfold dot. replace (k - 0) with k by lia. ring.
+Qed.
+
+(* ---------- function-level semantics of a sequence of blocks (last block first) ---------- *)
+Definition fblock (B : block) (f : comp -> Z -> S) : comp -> Z -> S :=
+  fun c k => (att B c k * sumc (fun c' => ment (b_rf B) c c' * f c' (k - delta c (b_d B))%Z))%K.
+Fixpoint frun (br : list block) (f0 : comp -> Z -> S) : comp -> Z -> S :=
+  match br with [] => f0 | B :: t => fblock B (frun t f0) end.
+
+Fixpoint run_rev (br : list block) (s : sm) : sm :=
+  match br with [] => s | B :: t => apply_block B (run_rev t s) end.
+Lemma run_rev_app br1 br2 s : run_rev (br1 ++ br2) s = run_rev br1 (run_rev br2 s).
+Proof. induction br1; simpl; auto. now rewrite IHbr1. Qed.
+Lemma run_blocks_rev bs s : run_blocks bs s = run_rev (rev bs) s.
+Proof.
+  unfold run_blocks. revert s. induction bs as [|B t IH]; intros s; simpl; auto.
+  rewrite IH, run_rev_app. reflexivity.
+Qed.
+
+Lemma wf_run_rev br s : List.Forall block_ok br -> wf S s -> wf S (run_rev br s).
+Proof.
+  intros H W. induction H; simpl; auto. now apply wf_apply_block.
+Qed.
+
+Definition fview (s : sm) : comp -> Z -> S := fun c k => cget c (get s k).
+
+Lemma run_rev_frun br s c k : List.Forall block_ok br -> wf S s ->
+  fview (run_rev br s) c k = frun br (fview s) c k.
+Proof.
+  intros H W. revert c k. induction H as [|B t HB Ht IH]; intros c k; simpl; auto.
+  unfold fview at 1. rewrite (block_step B (run_rev t s) c k HB (wf_run_rev t s Ht W)).
+  unfold fblock. f_equal. unfold sumc. rewrite <- !IH. reflexivity.
+Qed.
+
+(* ---------- pathways ---------- *)
+Fixpoint lsum {A} (f : A -> S) (l : list A) : S :=
+  match l with [] => k0 | a :: t => (f a + lsum f t)%K end.
+Lemma lsum_app {A} (f : A -> S) l1 l2 : lsum f (l1 ++ l2) = (lsum f l1 + lsum f l2)%K.
+Proof. induction l1; simpl; [ring|rewrite IHl1; ring]. Qed.
+Lemma lsum_map {A B} (g : A -> B) (f : B -> S) l : lsum f (map g l) = lsum (fun a => f (g a)) l.
+Proof. induction l; simpl; auto. now rewrite IHl. Qed.
+Lemma lsum_scale {A} (c : S) (f : A -> S) l : lsum (fun a => c * f a)%K l = (c * lsum f l)%K.
+Proof. induction l; simpl; [ring|rewrite IHl; ring]. Qed.
+Lemma lsum_ext_in {A} (f g : A -> S) l : (forall a, In a l -> f a = g a) -> lsum f l = lsum g l.
+Proof. intros H. induction l; simpl; auto. rewrite H, IHl; auto; [intros; apply H|]; simpl; auto. Qed.
+Lemma lsum_ext {A} (f g : A -> S) l : (forall a, f a = g a) -> lsum f l = lsum g l.
+Proof. intros H. induction l; simpl; auto. now rewrite H, IHl. Qed.
+
+(* all component histories of length n: 3^n of them *)
+Fixpoint allpaths (n : nat) : list (list comp) :=
+  match n with
+  | O => [[]]
+  | Datatypes.S n' => map (cons Cp) (allpaths n') ++ map (cons Cm) (allpaths n') ++ map (cons Cz) (allpaths n')
+  end.
+Lemma allpaths_length n : length (allpaths n) = (3 ^ n)%nat.
+Proof. induction n; simpl; auto. rewrite !app_length, !map_length, IHn. lia. Qed.
+Lemma allpaths_in n p : In p (allpaths n) <-> length p = n.
+Proof.
+  revert p. induction n; intros p; simpl.
+  - split; [intros [<-|[]]; reflexivity|]. destruct p; [auto|discriminate].
+  - rewrite !in_app_iff, !in_map_iff. split.
+    + intros [[q [<- Hq]]|[[q [<- Hq]]|[q [<- Hq]]]]; simpl; f_equal; now apply IHn.
+    + destruct p as [|c q]; [discriminate|]. intros H. injection H as H. apply IHn in H.
+      destruct c; [left|right; left|right; right]; exists q; auto.
+Qed.
+
+(* a pathway arriving in component c at wavenumber k after the blocks br (listed last first) is given by the
+   components p held BEFORE each of these blocks (last first).  Its weight: *)
+Fixpoint pw (br : list block) (p : list comp) (f0 : comp -> Z -> S) (c : comp) (k : Z) : S :=
+  match br, p with
+  | [], [] => f0 c k
+  | B :: br', c' :: p' => (att B c k * (ment (b_rf B) c c' * pw br' p' f0 c' (k - delta c (b_d B))%Z))%K
+  | _, _ => k0
+  end.
+
+Lemma lsum_pw_cons B t f0 c k c' l :
+  lsum (fun a => pw (B :: t) (c' :: a) f0 c k) l =
+  (att B c k * (ment (b_rf B) c c' * lsum (fun a => pw t a f0 c' (k - delta c (b_d B))%Z) l))%K.
+Proof. induction l as [|a l IHl]; [simpl; ring|cbn [lsum]; rewrite IHl; cbn [pw]; ring]. Qed.
+
+Theorem pathsum_fun br f0 c k :
+  frun br f0 c k = lsum (fun p => pw br p f0 c k) (allpaths (length br)).
+Proof.
+  revert c k. induction br as [|B t IH]; intros c k; cbn [frun length allpaths].
+  - simpl. ring.
+  - unfold fblock, sumc. rewrite !lsum_app, !lsum_map. cbv beta. rewrite !lsum_pw_cons, <- !IH. ring.
+Qed.
+
+(* the weight factorises: (product of RF matrix entries) * (product of the attenuations met) * initial coefficient *)
+Fixpoint amp (br : list block) (p : list comp) (c : comp) : S :=
+  match br, p with
+  | B :: br', c' :: p' => (ment (b_rf B) c c' * amp br' p' c')%K
+  | _, _ => k1
+  end.
+Fixpoint attp (br : list block) (p : list comp) (c : comp) (k : Z) : S :=
+  match br, p with
+  | B :: br', c' :: p' => (att B c k * attp br' p' c' (k - delta c (b_d B))%Z)%K
+  | _, _ => k1
+  end.
+(* wavenumber and component in which the pathway starts *)
+Fixpoint kstart (br : list block) (p : list comp) (c : comp) (k : Z) : Z :=
+  match br, p with
+  | B :: br', c' :: p' => kstart br' p' c' (k - delta c (b_d B))
+  | _, _ => k
+  end.
+Fixpoint cstart (p : list comp) (c : comp) : comp :=
+  match p with [] => c | c' :: p' => cstart p' c' end.
+
+Lemma pw_factor br p f0 c k : length p = length br ->
+  pw br p f0 c k = (amp br p c * attp br p c k * f0 (cstart p c) (kstart br p c k))%K.
+Proof.
+  revert p c k. induction br as [|B t IH]; intros [|c' p'] c k H; simpl in H; try discriminate; simpl.
+  - ring.
+  - rewrite IH by lia. ring.
+Qed.
+
+(* attenuation is multiplicative along a pathway: if each step's factor is att_of (b) for a "b-value" in an additive
+   structure and att_of turns sums into products, the pathway factor is att_of (accumulated b) *)
+Section Additive.
+Variable Bv : Type.
+Variable bzero : Bv.
+Variable bplus : Bv -> Bv -> Bv.
+Variable att_of : Bv -> S.
+Hypothesis att_of_0 : att_of bzero = k1.
+Hypothesis att_of_plus : forall x y, att_of (bplus x y) = (att_of x * att_of y)%K.
+(* blocks paired with the b-value of each of their steps *)
+Fixpoint bacc (brb : list (block * (comp -> Z -> Bv))) (p : list comp) (c : comp) (k : Z) : Bv :=
+  match brb, p with
+  | Bb :: t, c' :: p' => bplus (snd Bb c k) (bacc t p' c' (k - delta c (b_d (fst Bb))))
+  | _, _ => bzero
+  end.
+Lemma attp_additive brb p c k :
+  List.Forall (fun Bb : block * (comp -> Z -> Bv) => forall c k, att (fst Bb) c k = att_of (snd Bb c k)) brb ->
+  attp (map fst brb) p c k = att_of (bacc brb p c k).
+Proof.
+  intros H. revert p c k. induction H as [|Bb t HB Ht IH]; intros p c k; simpl; auto.
+  destruct p as [|c' p']; auto. rewrite att_of_plus, HB, IH. reflexivity.
+Qed.
+End Additive.
+
+(* ---------- the pathway theorem on the array model ---------- *)
+Theorem pathsum (bs : list block) (s0 : sm) (c : comp) (k : Z) :
+  List.Forall block_ok bs -> wf S s0 ->
+  cget c (get (run_blocks bs s0) k) =
+  lsum (fun p => (amp (rev bs) p c * attp (rev bs) p c k *
+                  cget (cstart p c) (get s0 (kstart (rev bs) p c k)))%K)
+       (allpaths (length bs)).
+Proof.
+  intros H W. rewrite run_blocks_rev.
+  assert (H' : List.Forall block_ok (rev bs)) by (apply Forall_rev; exact H).
+  change (cget c (get (run_rev (rev bs) s0) k)) with (fview (run_rev (rev bs) s0) c k).
+  rewrite (run_rev_frun (rev bs) s0 c k H' W), pathsum_fun, rev_length.
+  apply lsum_ext_in. intros p Hp. apply allpaths_in in Hp.
+  rewrite pw_factor by (now rewrite rev_length). reflexivity.
+Qed.
+
+(* the same, from the equilibrium state (0, 0, pd) at k = 0: only pathways that start in Z at k = 0 contribute *)
+Corollary pathsum_init (bs : list block) (pd : S) (c : comp) (k : Z) :
+  List.Forall block_ok bs -> kreal S pd ->
+  cget c (get (run_blocks bs (init pd)) k) =
+  lsum (fun p => if (match cstart p c with Cz => true | _ => false end && (kstart (rev bs) p c k =? 0)%Z)%bool
+                 then (amp (rev bs) p c * attp (rev bs) p c k * pd)%K else k0)
+       (allpaths (length bs)).
+Proof.
+  intros H Hpd. rewrite (pathsum bs (init pd) c k H (wf_init S L pd Hpd)).
+  apply lsum_ext. intros p. rewrite (get_init S pd).
+  destruct (kstart (rev bs) p c k =? 0)%Z; destruct (cstart p c); simpl; ring.
+Qed.
+End Pathways.
+
+(* part D: the pathway theorem at K = C with the generated attenuation formulas (1-D, integer states with kvalue) *)
+Section Physical.
+Local Open Scope R_scope.
+Notation blockC := (block Cops).
+
+(* b : D of one interval for the component c arriving at state k (1-D): the ramp runs from kv*(k - delta c d) to kv*k;
+   delta Cz = 0 gives the constant-wavenumber case *)
+Definition phys_b (tau D kv : R) (d : Z) (c : comp) (k : Z) : R :=
+  bmat tau (kv * IZR (k - delta c d)) (kv * IZR (k - delta c d)) (kv * IZR k) (kv * IZR k) * D.
+
+Definition phys_aT (tau D kv : R) (d k : Z) : C :=
+  RtoC (att_tensor1 (bmat tau (kv * IZR (k - d)) (kv * IZR (k - d)) (kv * IZR k) (kv * IZR k)) D).
+Definition phys_aL (tau D kv : R) (k : Z) : C :=
+  RtoC (att_tensor1 (bmat_const tau (kv * IZR k) (kv * IZR k)) D).
+(* the block [T-matrix m; S(d); D(tau, D, k=d)] on a state matrix with kvalue = kv *)
+Definition phys_block (m : mat3 Cops) (d : Z) (tau D kv : R) : blockC :=
+  mkB m d (phys_aT tau D kv d) (phys_aL tau D kv).
+
+Lemma Cconj_RtoC x : Cconj (RtoC x) = RtoC x.
+Proof. apply injective_projections; simpl; ring. Qed.
+
+Lemma phys_block_ok m d tau D kv : wf_mat Cops m -> block_ok Cops (phys_block m d tau D kv).
+Proof.
+  intros Hm. split; [exact Hm|]. intros k. simpl. unfold phys_aL.
+  change (@kconj Cops) with Cconj. rewrite Cconj_RtoC. f_equal. f_equal.
+  rewrite opp_IZR. replace (kv * - IZR k) with (- (kv * IZR k)) by ring.
+  apply (proj2 (bmatrix_even tau (kv * IZR k) (kv * IZR k) 0 0)).
+Qed.
+
+(* every attenuation met on a pathway is exp(-b:D) with b:D the generated ramp formula ... *)
+Lemma phys_att m d tau D kv c k :
+  att Cops (phys_block m d tau D kv) c k = RtoC (exp (- phys_b tau D kv d c k)).
+Proof.
+  destruct c; unfold att, phys_block, phys_b, delta; cbn [b_aT b_aL].
+  - reflexivity.
+  - unfold phys_aT. change (@kconj Cops) with Cconj. rewrite Cconj_RtoC. unfold att_tensor1. do 4 f_equal.
+    replace (- k - d)%Z with (- (k - - d))%Z by lia. rewrite !opp_IZR.
+    replace (kv * - IZR (k - - d)) with (- (kv * IZR (k - - d))) by ring.
+    replace (kv * - IZR k) with (- (kv * IZR k)) by ring.
+    apply (proj1 (bmatrix_even tau _ _ _ _)).
+  - unfold phys_aL, att_tensor1. do 4 f_equal. replace (k - 0)%Z with k by lia.
+    symmetry. apply (proj1 (bmatrix_const tau _ _)).
+Qed.
+
+(* ... and that b:D is the time integral of D k(t)^2 over the interval, k(t) the linear ramp of the wavenumber of
+   the pathway during the interval (constant for Z storage), in the units of the code *)
+Lemma phys_b_is_integral tau D kv d c k : tau <> 0 ->
+  is_RInt (fun t => D * (kramp tau (kv * IZR (k - delta c d)) (kv * IZR k) t * kramp tau (kv * IZR (k - delta c d)) (kv * IZR k) t))
+          0 tau (phys_b tau D kv d c k / unit_factor).
+Proof.
+  intros Ht. unfold phys_b.
+  replace (bmat tau (kv * IZR (k - delta c d)) (kv * IZR (k - delta c d)) (kv * IZR k) (kv * IZR k) * D / unit_factor)
+    with (scal D (bmat tau (kv * IZR (k - delta c d)) (kv * IZR (k - delta c d)) (kv * IZR k) (kv * IZR k) / unit_factor)).
+  - apply (is_RInt_scal (fun t => kramp tau (kv * IZR (k - delta c d)) (kv * IZR k) t * kramp tau (kv * IZR (k - delta c d)) (kv * IZR k) t)).
+    exact (bmatrix_is_integral tau _ _ _ _ Ht).
+  - unfold scal; simpl; unfold mult; simpl. unfold unit_factor, ms_to_s, radm_to_radmm. field.
+Qed.
+
+(* accumulated b:D of a pathway (Chasles sum of the interval integrals) and the multiplicativity of exp *)
+Definition att_exp (b : R) : C := RtoC (exp (- b)).
+Lemma att_exp_0 : att_exp 0 = @k1 Cops.
+Proof. unfold att_exp. rewrite Ropp_0, exp_0. reflexivity. Qed.
+Lemma att_exp_plus x y : att_exp (x + y) = @kmul Cops (att_exp x) (att_exp y).
+Proof.
+  unfold att_exp. replace (- (x + y)) with (- x + - y) by ring. rewrite exp_plus.
+  apply injective_projections; simpl; ring.
+Qed.
+
+(* sequences of physical blocks: parameters (matrix, shift, tau, D) *)
+Definition pblock (kv : R) (q : mat3 Cops * Z * R * R) : blockC * (comp -> Z -> R) :=
+  let '(m, d, tau, D) := q in (phys_block m d tau D kv, phys_b tau D kv d).
+
+Theorem phys_pathway_attenuation kv (qs : list (mat3 Cops * Z * R * R)) p c k :
+  attp Cops (map fst (map (pblock kv) qs)) p c k =
+  att_exp (bacc Cops R 0 Rplus (map (pblock kv) qs) p c k).
+Proof.
+  apply (attp_additive Cops R 0 Rplus att_exp att_exp_0 att_exp_plus).
+  induction qs as [|[[[m d] tau] D] t IH]; constructor; auto.
+  intros c0 k0. simpl. apply phys_att.
+Qed.
+End Physical.
